@@ -5,6 +5,7 @@
 -/
 import PotasscoVerif.Props.C02sem
 import PotasscoVerif.Props.C08b
+import PotasscoVerif.Lemmas.ConvertHeu
 namespace PotasscoVerif.C08
 open PotasscoVerif PotasscoVerif.Asp PotasscoVerif.Convert PotasscoVerif.C02
 
@@ -51,7 +52,7 @@ theorem srcOuts_mem (ds : List Call) (n : List Nat) (cond : List Int) :
     no output directive uses an `_edge(…)` helper name), converted with the extensions on: the answer sets correspond one to one (`C02_equivalence`),
     and under corresponding answer sets an edge `(a,b)` is active in the given program iff the emitted program shows `_edge(a,b)` — the symbol the
     smodels reader turns back into an edge on that condition atom (`C08_table_read`). -/
-theorem C08_edges_active (inc : Bool) (ds : List Call) (hx : ∀ d ∈ ds, PlainOk d) (hE : extCalls ds = [])
+theorem C08_edges_active (inc : Bool) (ds : List Call) (hx : ∀ d ∈ ds, PlainOk d) (hnh : ∀ d ∈ ds, isHeu d = false) (hE : extCalls ds = [])
     (hr : ∀ a b cond, Call.acycEdge a b cond ∈ ds → (-2147483648 ≤ a ∧ a ≤ 2147483647) ∧ (-2147483648 ≤ b ∧ b ≤ 2147483647))
     (hno : ∀ n cond, Call.output n cond ∈ ds → ∀ a b, n ≠ edgeName a b) :
     ∃ E : I → I,
@@ -59,7 +60,7 @@ theorem C08_edges_active (inc : Bool) (ds : List Call) (hx : ∀ d ∈ ds, Plain
       (∀ X', Stable (rulesOf (convert true (stepCalls inc ds)).out) X' → X' 1 = false → ∃ X, Stable (progOf ds) X ∧ E X = X') ∧
       (∀ X a b, (-2147483648 ≤ a ∧ a ≤ 2147483647) → (-2147483648 ≤ b ∧ b ≤ 2147483647) →
         (edgeActive ds X a b ↔ shownOut (convert true (stepCalls inc ds)).out (E X) (edgeName a b))) := by
-  obtain ⟨E, h1, h2, h3⟩ := C02_equivalence true inc ds hx (Or.inr hE)
+  obtain ⟨E, h1, h2, h3⟩ := C02_equivalence true inc ds hx hnh (Or.inr hE)
   refine ⟨E, fun X hs => ⟨(h1 X hs).1, (h1 X hs).2.1⟩, fun X' hs h0 => ⟨_, (h2 X' hs h0).1, (h2 X' hs h0).2⟩, ?_⟩
   intro X a b ha hb
   rw [← h3 X (edgeName a b)]
@@ -74,5 +75,61 @@ theorem C08_edges_active (inc : Bool) (ds : List Call) (hx : ∀ d ∈ ds, Plain
       obtain ⟨e1, e2⟩ := edgeName_inj a b a' b' ha hb ra rb e
       subst e1; subst e2
       exact ⟨cond, h, hb'⟩
+
+theorem heuOutName_eq (nm : List Nat) (h : Heu) : heuOutName nm h = heuText nm h.type h.bias h.prio := rfl
+
+/-- **C08 (heuristics, answer-set level)**: for every program step of rules, minimize, output, external, edge and heuristic directives converted with
+    the extensions on, the answer sets of the given and of the emitted program correspond one to one (`E` / restriction, as in C02), and for every
+    `#heuristic` directive on an atom that occurs in the program the emitted program contains an output directive
+    `_heuristic(name,modifier,bias,priority)` — the same modifier, bias and priority — on an atom that is true under `E X` exactly when the
+    directive's condition holds under `X`: the modification is active in corresponding answer sets, and only there.  (`C08_table_read` /
+    `C08_heuristics_resolved`: the smodels reader turns that symbol back into a heuristic directive on the atom its `name` denotes.) -/
+theorem C08_heuristics_active (inc : Bool) (ds : List Call) (hx : ∀ d ∈ ds, PlainOk d) (hE : extCalls ds = []) :
+    ∃ E : I → I,
+      (∀ X, Stable (progOf ds) X → Stable (rulesOf (convert true (stepCalls inc ds)).out) (E X) ∧ E X 1 = false ∧ restrict (convert true (stepCalls inc ds)) (E X) = X) ∧
+      (∀ X', Stable (rulesOf (convert true (stepCalls inc ds)).out) X' → X' 1 = false →
+        Stable (progOf ds) (restrict (convert true (stepCalls inc ds)) X') ∧ E (restrict (convert true (stepCalls inc ds)) X') = X') ∧
+      (∀ a t b p cond, Call.heuristic a t b p cond ∈ ds → a ∈ domOf (preEnd true inc ds) →
+        ∃ nm n, Call.output (heuText nm t b p) [(n : Int)] ∈ (convert true (stepCalls inc ds)).out ∧
+          ∀ X, bodyR (E X) (E X) (.normal [(n : Int)]) = bodyR X X (.normal cond)) := by
+  obtain ⟨defs, h1, q1, x1⟩ := JHX.pre true inc ds hx
+  have hE' : (preEnd true inc ds).ext = false ∨ (preEnd true inc ds).externs = [] := by
+    right; rw [x1.r, run_regs_nil ds {} hE]
+  obtain ⟨f1, f2, f3⟩ := flushMinimize_flags (preEnd true inc ds)
+  have hshape : FlushShape (preEnd true inc ds).flushMinimize := by
+    apply flushShape
+    · intro a ha
+      exact dom_mono (flushMinimize_steps _) h1.inv a (x1.m a (f2 ▸ ha))
+    · rcases hE' with h | h
+      · exact Or.inl (f3.trans h)
+      · exact Or.inr (f2.trans h)
+  have hj : J (convert true (stepCalls inc ds)) ((rulesOf ds).filter kept ++ extRules ds) defs := by
+    rw [convert_step, apply_end _ h1.nofail, ← extP_decl _ ds x1]
+    exact (h1.flush x1.m hE').emit _ rfl
+  have hst : Steps (abs (preEnd true inc ds)) (abs (convert true (stepCalls inc ds))) := by rw [convert_step]; exact apply_steps _ _
+  have ok := ctx_ok hj
+  have tr := ctx_trans hj
+  refine ⟨fun X => (ctxOf (convert true (stepCalls inc ds)) defs).E X X, ?_, ?_, ?_⟩
+  · intro X hs
+    have hs' := (stable_filter_kept_app _ _ X).mpr hs
+    obtain ⟨g1, g2, g3⟩ := translation_stable ok tr hs'
+    refine ⟨g1, g2, ?_⟩
+    rw [restrict_eq _ hj.inv defs]; exact g3
+  · intro X' hs h0
+    obtain ⟨g2, g3⟩ := translation_stable_back ok tr X' hs h0
+    rw [restrict_eq _ hj.inv defs]
+    exact ⟨(stable_filter_kept_app _ _ _).mp g2, g3.symm⟩
+  · intro a t b p cond hmem hdom
+    have hin : (a, t, b, p, cond) ∈ heusOf ds := by
+      unfold heusOf; simp only [List.mem_filterMap]; exact ⟨_, hmem, rfl⟩
+    obtain ⟨e, he, e1, e2, e3, e4, hrep⟩ := HRel.mem _ _ q1 _ hin
+    simp only at e1 e2 e3 e4 hrep
+    obtain ⟨nm, hout⟩ := flush_heu_outs (preEnd true inc ds) h1.nofail h1.inv hshape e he (by rw [e1]; exact hdom)
+    refine ⟨nm, e.cond, ?_, ?_⟩
+    · rw [convert_step]
+      rw [heuOutName_eq, e2, e3, e4] at hout
+      exact hout
+    · intro X
+      exact rep_val hj X e.cond cond (hrep.mono hst h1.inv (fun d hd => hd))
 
 end PotasscoVerif.C08
